@@ -77,6 +77,7 @@ type hist struct {
 	sendOff   map[string]bool
 	ended     bool
 	freeCoin  string
+	spare     []string // funded, unregistered denominations a later AddCoin proposal can aggregate into a module pair
 	offSteps  int
 	touched   []*pair // pairs whose token or coins the current step could have moved
 	okCount   map[string]int
@@ -160,8 +161,9 @@ func newHist(r *core.Run, id string) *hist {
 	h.dep = core.NewAccount("dep")
 	h.fresh = []*core.Account{core.NewAccount("fresh0"), core.NewAccount("fresh1")}
 	accs := append(append([]*core.Account{}, h.users...), h.dep)
-	coins := []string{"acoin", "bcoin", "ccoin", "dcoin", "ecoin", "fcoin", ac.IBCCoin}
+	coins := []string{"acoin", "bcoin", "ccoin", "dcoin", "ecoin", "fcoin", "gcoin", "hcoin", ac.IBCCoin}
 	h.freeCoin = "fcoin"
+	h.spare = []string{"gcoin", "hcoin"}
 	h.n = core.NewNode(core.NodeConfig{ChainID: "teleport_9000-1", XIBCName: "teleport", Accounts: accs, MutateGenesis: ac.FundGenesis(accs, coins, ac.UserFunds)})
 	h.clk = time.Date(2022, 1, 2, 0, 0, 5, 0, time.UTC)
 	h.n.Begin(h.clk)
@@ -626,8 +628,10 @@ func (h *hist) step() {
 		h.opConvert("coin")
 	case w < 80:
 		h.opConvert("erc20")
-	case w < 84:
+	case w < 83:
 		h.opTogglePair()
+	case w < 84:
+		h.opAddCoin()
 	case w < 86:
 		h.opToggleModule()
 	case w < 89:
@@ -975,6 +979,59 @@ func (h *hist) opTogglePair() {
 	}
 	h.ops = append(h.ops, fmt.Sprintf("toggle pair %s -> %v", p.Name, p.Enabled))
 	h.r.Count("toggle_pair", 1)
+	if !p.Enabled && p.Kind == "module" && len(h.spare) > 0 && h.pick(2) == 0 {
+		h.addCoinTo(p)
+	}
+}
+
+// opAddCoin: governance aggregates one more funded coin into a module-owned pair, enabled or not. The pair keeps its
+// switch: a disabled pair stays disabled (for all of its denominations, the new one included) until it is toggled.
+func (h *hist) opAddCoin() {
+	if len(h.spare) == 0 {
+		h.opTogglePair()
+		return
+	}
+	var mod []*pair
+	for _, q := range h.pairs {
+		if q.Kind == "module" {
+			mod = append(mod, q)
+		}
+	}
+	if len(mod) == 0 {
+		return
+	}
+	p := mod[h.pick(len(mod))]
+	for _, q := range mod {
+		if !q.Enabled && h.pick(3) > 0 {
+			p = q
+		}
+	}
+	h.addCoinTo(p)
+}
+
+func (h *hist) addCoinTo(p *pair) {
+	d := h.spare[0]
+	g := ac.Gov(h.n, h.n.Ctx(), aggtypes.NewAddCoinProposal("t", "d", coinMeta(d), p.Contract.Hex()))
+	h.r.Eval(fmt.Sprintf("%s/%d/add-coin/%s/enabled=%v/module=%v", h.id, len(h.ops), p.Name, p.Enabled, h.modOn), g.Validated)
+	if g.Panicked {
+		h.r.Violation(h.id, "add-coin/handler-panicked", map[string]interface{}{"pair": p.Name, "denom": d, "ops": h.tail()})
+		return
+	}
+	if g.Err != nil {
+		h.ops = append(h.ops, fmt.Sprintf("add coin %s to %s refused: %v", d, p.Name, g.Err))
+		h.r.Count("add_coin_refused", 1)
+		return
+	}
+	g.Write()
+	h.spare = h.spare[1:]
+	p.Denoms = append(p.Denoms, d)
+	h.ops = append(h.ops, fmt.Sprintf("add coin %s to %s (enabled=%v)", d, p.Name, p.Enabled))
+	h.r.Count(fmt.Sprintf("add_coin/pair_enabled=%v", p.Enabled), 1)
+	stored, ok := h.n.App.AggregateKeeper.GetTokenPair(h.n.Ctx(), h.n.App.AggregateKeeper.GetTokenPairID(h.n.Ctx(), p.Contract.Hex()))
+	if !ok || stored.Enabled != p.Enabled {
+		h.r.Violation(h.id, "add-coin/changed-the-pair-switch", map[string]interface{}{"pair": p.Name, "denom": d, "enabled_before": p.Enabled, "stored_enabled": stored.Enabled, "ops": h.tail()})
+	}
+	h.touched = append(h.touched, p)
 }
 
 func (h *hist) opToggleModule() {
